@@ -38,6 +38,8 @@ ActionClauses(pre, r, post) ==
      THEN <<"C04:AddsPreserve">> ELSE <<>>)
   \o (IF r.op.name \in {"remove_simplex_id", "remove_edge"} /\ r.res = "ok" /\ WF(post)
          /\ ~RemoveExact(pre, r.op.e, post) THEN <<"C03:RemoveExact">> ELSE <<>>)
+  \o (IF r.op.name \in {"remove_simplex_ids_from", "remove_edges_from"} /\ r.res = "ok" /\ WF(post)
+         /\ ~RemoveExactBulk(pre, Range(r.op.ns), post) THEN <<"C03:RemoveExact.bulk">> ELSE <<>>)
   \o (IF r.op.name \in {"add_simplices_from", "add_weighted_simplices_from", "add_weighted_edges_from"} /\ WF(post) /\ ~MaxOrderRespected(pre, r.op.n2, post)
          THEN <<"C03:MaxOrderRespected">> ELSE <<>>)
   \o (IF WF(post) /\ \E k \in DOMAIN r.has : r.has[k][2] # HasSimplex(post, Range(r.has[k][1]))
